@@ -49,7 +49,13 @@ EXPECTED_PROBES = ["alloc_fault_fired", "retry_after_alloc_error", "batch_size_1
 _ctx = {}
 
 
+_SETUP_DONE = []
+
+
 def setup():
+    if _SETUP_DONE:
+        return
+    _SETUP_DONE.append(1)
     from .. import core
 
     core.use_repo()
